@@ -474,12 +474,109 @@ def second_find(case, mw, node, peers, net, led, first, t_found, d, fail, info, 
             fail("adopt", "side-branch-find-not-broadcast-exactly-once", "peer %d received %d unsolicited block messages carrying the second found block" % (k, n))
 
 
+def real_miner_sessions(case):
+    """The REAL miner loop (mining.run_miner / Miner.__call__, in a thread) against the REAL MinerWatcher.__call__ on a simulated
+    node: every block that appears as the node's new head while the miner runs must be valid by the reference, pay exactly
+    subsidy + fees to the key the watcher held, and the watcher's message loop must not die."""
+    import random
+    from vf import simnet, minersession, build as b
+    env.import_networking()
+    from skepticoin import mining as MI, consensus as C, wallet as W
+    fails = []
+    info = {}
+
+    def fail(kind, sig, msg):
+        if not any(f["sig"] == sig for f in fails):
+            fails.append({"kind": kind, "sig": sig, "msg": msg})
+
+    hist = chainexec.gen_case(random.Random(case["hist_seed"]), tuple(case["cfg"]), case["n_blocks"], 0.0, ["C01"], p_tx=0.5, p_fork=0.2)
+    hist.pop("horizon", None)
+    r = chainexec.Run(hist, ("C12",))
+    r.execute()
+    led = r.world.uni
+    d = env.fresh_subdir("c12rm")
+    cwd = os.getcwd()
+    os.chdir(d)
+    try:
+        simnet.install()
+        net = simnet.Net()
+        head = led.nodes[r.cs.current_chain_hash]
+        simnet.CLOCK.now = head.blk.ts + 40
+        node = net.add("miner", "10.0.0.1", r.cs, 5, disk=simnet.RecDisk())
+        node.cm.started_at = -10 ** 9
+        wk = [KEYS[i] for i in (2, 3, 4, 5, 6, 7)]
+        W.save_wallet(W.Wallet({k.pub: k.priv for k in wk}, [k.pub for k in wk], {}))
+        s_ = minersession.Session(MI, C, simnet, node, case["finds"], case["nonce0"], real_miner=True).run()
+        info["sessions"] = 1
+        info["finds"] = s_.found
+        if s_.stalled:
+            info["stalled"] = 1
+            return fails, info
+        if "Error in MinerWatcher message loop" in s_.output:
+            txt = s_.output[s_.output.index("Error in MinerWatcher message loop"):]
+            txt = txt.split("Restoring unused public key")[0].strip().splitlines()
+            last = txt[-1].strip() if txt else "?"
+            fail("found", "miner-loop-died:" + last.split(":")[0].split(".")[-1], "with the real miner loop (Miner.__call__) feeding it, the watcher's message loop ended with an error after %d find(s): %s" % (s_.found, last[:300]))
+            return fails, info
+        if s_.raised is not None:
+            fail("found", "miner-session-raised:" + type(s_.raised).__name__, "MinerWatcher.__call__ ended with %r" % (s_.raised,))
+            return fails, info
+        if s_.found < case["finds"]:
+            info["no_find"] = 1
+            return fails, info
+        parent = head
+        for j, bid in enumerate(s_.heads[1:]):
+            plain = b.from_sk_block(node.cm.coinstate.block_by_hash[bid])
+            v = led.validate(plain, plain.ts + 60)
+            if v:
+                fail("found", "found-block-invalid:" + v[0], "a block found by the real miner loop violates %s" % v)
+                break
+            cb = plain.txs[0]
+            want = R.subsidy(plain.height)
+            if plain.prev != parent.id:
+                fail("found", "not-built-on-head", "the found block does not extend the head")
+            if len(cb.outs) != 1 or cb.outs[0][0] != want or (j < len(s_.handed) and cb.outs[0][1] != s_.handed[j]):
+                fail("reward", "reward-not-exact", "reward outputs %s, expected one output of %d to the key the watcher held" % ([v_ for v_, _ in cb.outs], want))
+            if not plain.ts > parent.blk.ts:
+                fail("time", "timestamp-not-after-parent", "found block's timestamp is not later than its parent's")
+            led.add(plain)
+            parent = led.nodes[bid]
+        return fails, info
+    finally:
+        os.chdir(cwd)
+
+
 def shards(tier):
-    return [{"kind": "mine", "i": i} for i in range(16)]
+    return [{"kind": "mine", "i": i} for i in range(15)] + [{"kind": "real_miner"}]
+
+
+def run_real_miner(res, tier, seed):
+    n = 8 if tier == "quick" else 150
+
+    @hypothesis.seed(env.subseed(seed, ID, "real_miner"))
+    @settings(max_examples=n, deadline=None, database=None, suppress_health_check=list(hypothesis.HealthCheck), phases=[hypothesis.Phase.generate])
+    @given(st.integers(0, 10 ** 6), st.sampled_from(chainexec.CFGS[:3]), st.integers(3, 8), st.integers(1, 2), st.integers(0, 1 << 30))
+    def prop(hist_seed, cfg, n_blocks, finds, nonce0):
+        case = {"real_miner": True, "hist_seed": hist_seed, "cfg": list(cfg), "n_blocks": n_blocks, "finds": finds, "nonce0": nonce0}
+        fails, info = real_miner_sessions(case)
+        res.evaluations += 1
+        res.count("real_miner_sessions")
+        res.count("real_miner_finds", info.get("finds", 0))
+        res.count("real_miner_stalled(inconclusive)", info.get("stalled", 0))
+        if info.get("finds"):
+            res.nontrivial(env.digest(case))
+        for f in fails:
+            res.fail(f["kind"], f["sig"], f["msg"], case)
+
+    prop()
+    res.sample({"real_miner_loop": "mining.run_miner in a thread + MinerWatcher.__call__ + simulated node; 1-2 finds per session"})
+    return res
 
 
 def run(shard, tier, seed):
     res = Result()
+    if shard["kind"] == "real_miner":
+        return run_real_miner(res, tier, seed)
     n = 15 if tier == "quick" else 450
 
     @hypothesis.seed(env.subseed(seed, ID, shard["i"]))
@@ -520,4 +617,6 @@ def run(shard, tier, seed):
 
 
 def replay(case):
+    if case.get("real_miner"):
+        return real_miner_sessions(case)[0]
     return execute(case)[0]
